@@ -18,7 +18,11 @@
 //
 // Case 0 of the mode is fixed (the same for every seed): three quarantine layouts with non-integer
 // resolutions on which the side that is really the nearest differs from the side a comparison of
-// ROUNDED distances would pick (finding F27); all other cases are random.
+// ROUNDED distances would pick (finding F27), then three layouts with NEGATIVE area ids (finding F30):
+// (a) 1x5 areas [-1,-1,1,1,1] with the infected cell on id -1, (b) a raster of -1 only, (c) the layout
+// of (a) with the infection inside area 1 (negative ids at non-infected cells only). All other cases
+// are random; about 12 % of them carry negative area ids (-1, -2, -3, -9999: single cells, a margin
+// strip, every cell outside the areas, or the whole raster), half of those with an infected cell on one.
 //
 // Usage: h_metric <mode> <seed> <first> <count>      mode: mix
 #include <cfloat>
@@ -263,7 +267,33 @@ static Raster<int> gen_areas(Rng& rng, const Grid& g, bool negids) {
         int m = rng.in(1, 4);
         for (int t = 0; t < m; t++) a(rng.in(0, g.rows - 1), rng.in(0, g.cols - 1)) = rng.coin(40) ? 0 : rng.pick(ids);
     }
-    if (negids) a(rng.in(0, g.rows - 1), rng.in(0, g.cols - 1)) = -rng.in(1, 3);
+    if (negids) {                                               // ids below 0 (nodata values and the like)
+        static const std::vector<int> nids = {-1, -1, -9999, -9999, -2, -3};
+        int nid = rng.pick(nids);
+        int how = rng.in(0, 99);
+        if (how < 40) {                                         // one to three single cells
+            int m = rng.in(1, 3);
+            for (int t = 0; t < m; t++) a(rng.in(0, g.rows - 1), rng.in(0, g.cols - 1)) = rng.coin(80) ? nid : rng.pick(nids);
+            stats.add("negids_single_cells");
+        }
+        else if (how < 70) {                                    // a margin strip: one border row or column
+            int side = rng.in(0, 3);
+            if (side < 2) { int i = side == 0 ? 0 : g.rows - 1; for (int j = 0; j < g.cols; j++) a(i, j) = nid; }
+            else { int j = side == 2 ? 0 : g.cols - 1; for (int i = 0; i < g.rows; i++) a(i, j) = nid; }
+            stats.add("negids_margin_strip");
+        }
+        else if (how < 90) {                                    // every cell outside the areas carries the nodata value
+            bool any = false;
+            for (int i = 0; i < g.rows; i++) for (int j = 0; j < g.cols; j++) if (a(i, j) == 0) { a(i, j) = nid; any = true; }
+            if (!any) a(rng.in(0, g.rows - 1), rng.in(0, g.cols - 1)) = nid;
+            stats.add("negids_instead_of_zero");
+        }
+        else {                                                  // no positive id at all
+            for (int i = 0; i < g.rows; i++) for (int j = 0; j < g.cols; j++) a(i, j) = rng.coin(85) ? nid : 0;
+            a(rng.in(0, g.rows - 1), rng.in(0, g.cols - 1)) = nid;
+            stats.add("negids_no_positive_id");
+        }
+    }
     return a;
 }
 
@@ -277,7 +307,26 @@ static void area_box(const Grid& g, const Raster<int>& areas, int id, int& n, in
     for (int a = 0; a < g.rows; a++) for (int b = 0; b < g.cols; b++) if (areas(a, b) == id) { n = std::min(n, a); s = std::max(s, a); e = std::max(e, b); w = std::min(w, b); }
 }
 
-static Raster<int> gen_qinf(Rng& rng, const Grid& g, const Raster<int>& areas, const std::string& dirs, bool neg) {
+static Raster<int> gen_qinf_plain(Rng& rng, const Grid& g, const Raster<int>& areas, const std::string& dirs, bool neg);
+
+// on_neg: -1 the area raster has no negative id; 0 no infected cell on a negative id (those cells are
+// cleared); 1 at least one infected listed cell on a negative id (when a listed cell has one).
+static Raster<int> gen_qinf(Rng& rng, const Grid& g, const Raster<int>& areas, const std::string& dirs, bool neg, int on_neg) {
+    Raster<int> r = gen_qinf_plain(rng, g, areas, dirs, neg);
+    if (on_neg < 0) return r;
+    std::vector<std::pair<int, int>> negcells;
+    for (auto& cell : g.cells) if (areas(cell[0], cell[1]) < 0) negcells.push_back({cell[0], cell[1]});
+    if (on_neg == 0) { for (int i = 0; i < g.rows; i++) for (int j = 0; j < g.cols; j++) if (areas(i, j) < 0) r(i, j) = 0; return r; }
+    if (negcells.empty()) return r;
+    int m = rng.coin(70) ? 1 : rng.in(2, 3);
+    for (int t = 0; t < m; t++) { auto p = rng.pick(negcells); r(p.first, p.second) = val(rng, neg); }
+    if (rng.coin(35)) {                                         // and nothing else infected: the cell on the negative id decides alone
+        for (int i = 0; i < g.rows; i++) for (int j = 0; j < g.cols; j++) if (areas(i, j) >= 0) r(i, j) = 0;
+    }
+    return r;
+}
+
+static Raster<int> gen_qinf_plain(Rng& rng, const Grid& g, const Raster<int>& areas, const std::string& dirs, bool neg) {
     if (rng.coin(30)) return gen_inf(rng, g, neg);
     Raster<int> r(g.rows, g.cols, 0);
     std::vector<std::pair<int, int>> in, deep;      // deep: at least one cell away from every enabled side of its area's box
@@ -397,6 +446,31 @@ static void emit_fixed(verif::Case& c, int rows, int cols, double ew, double ns,
     if (sv.ok && sv.rounded_compare_picks_other_side) stats.add("q_rounded_comparison_would_pick_a_farther_side");
 }
 
+// One fixed layout with a given area raster (row-major ids), all cells suitable, one run, one
+// measurement; the constructor or the action may throw.
+static void emit_fixed_areas(verif::Case& c, int rows, int cols, double ew, double ns, const std::string& dirs,
+                             const std::vector<int>& ids, const std::vector<std::pair<int, int>>& infected, const char* tag) {
+    std::ostream& out = c.out;
+    Grid g; g.rows = rows; g.cols = cols; g.ew = ew; g.ns = ns; g.int_res = true; g.restrict_to_suitable = true;
+    g.suit.assign((size_t)(rows * cols), 1);
+    for (int i = 0; i < rows; i++) for (int j = 0; j < cols; j++) g.cells.push_back({i, j});
+    print_grid(out, g);
+    Raster<int> areas(rows, cols, 0), inf(rows, cols, 0);
+    for (int i = 0; i < rows; i++) for (int j = 0; j < cols; j++) areas(i, j) = ids.at((size_t)(i * cols + j));
+    for (auto& p : infected) inf(p.first, p.second) = 1;
+    out << "metric.q.new 1 " << (dirs.empty() ? "<empty>" : dirs) << " 1 " << data(areas) << " => ";
+    QE q(areas, ew, ns, 1, dirs);
+    print_table(out, q);
+    HP hp{&inf, &g.cells};
+    out << "metric.q.act 0 0 same " << data(inf) << " => ";
+    std::string e = verif::err_kind([&] { q.action(hp, areas, 0); });
+    if (!e.empty()) out << e << "\n"; else print_report(out, q, 0);
+    std::vector<QE> runs(1, q);
+    print_aggregates(out, runs, 1, 1);
+    c.nontrivial = true;
+    stats.add(tag);
+}
+
 // Case 0. (a) 52 x 1, ns = 0.4 (the only non-dyadic value the harness uses; 26 x 0.4 and 25 x 0.4 round
 // to 10.4 and exactly 10.0 in double precision), infected cell in row 26, sides N and S: north edge at
 // 10.4, south edge at 10.0 - the nearest side is S. (b) the same shape of example with dyadic numbers:
@@ -406,12 +480,20 @@ static void emit_case0(verif::Case& c) {
     emit_fixed(c, 52, 1, 1.0, 0.4, "N,S", {{26, 0}});
     emit_fixed(c, 10, 1, 1.0, 0.25, "N,S", {{5, 0}});
     emit_fixed(c, 1, 12, 0.25, 1.0, "E,W", {{0, 5}, {0, 7}});
+    // finding F30: an infected cell whose area id is negative lies outside every quarantine area
+    // (a) measured against the box of area 1 (columns 2..4): reported (-2, W) instead of an escape
+    emit_fixed_areas(c, 1, 5, 1.0, 1.0, "E,W", {-1, -1, 1, 1, 1}, {{0, 0}}, "fixed_negative_id_measured_against_first_area");
+    // (b) no positive id at all: boundaries.at(0) throws std::out_of_range
+    emit_fixed_areas(c, 2, 3, 1.0, 1.0, "", {-1, -1, -1, -1, -1, -1}, {{1, 1}}, "fixed_negative_id_no_area_registered");
+    // (c) the layout of (a), infection inside area 1: negative ids at non-infected cells change nothing
+    emit_fixed_areas(c, 1, 5, 1.0, 1.0, "E,W", {-1, -1, 1, 1, 1}, {{0, 3}}, "fixed_negative_id_at_uninfected_cells");
 }
 
 static void emit_quarantine(verif::Case& c, const Grid& g, bool neg) {
     Rng& rng = c.rng; std::ostream& out = c.out;
-    bool negids = rng.coin(2);
-    if (negids) stats.add("areas_with_negative_id");
+    bool negids = rng.coin(12);
+    bool neg_infected = negids && rng.coin(50);                 // an infected cell sits on a negative id (finding F30)
+    if (negids) stats.add(neg_infected ? "areas_with_negative_id_infected_there" : "areas_with_negative_id_infection_elsewhere");
     Raster<int> areas = gen_areas(rng, g, negids);
     bool valid; std::string dirs = gen_dirs(rng, valid);
     int nruns = rng.coin(85) ? rng.in(1, 4) : rng.in(5, 8);
@@ -428,7 +510,9 @@ static void emit_quarantine(verif::Case& c, const Grid& g, bool neg) {
         for (unsigned s = 0; s < K; s++) {
             unsigned step = s;
             if (odd && rng.coin(40)) { step = (unsigned)rng.in(0, (int)K + 1); stats.add("q_step_out_of_sequence"); }
-            Raster<int> inf = gen_qinf(rng, g, areas, dirs, neg);
+            // with negative ids: half of the cases keep the infection off them in every measurement, the
+            // other half put an infected cell on one in most measurements
+            Raster<int> inf = gen_qinf(rng, g, areas, dirs, neg, !negids ? -1 : (neg_infected && rng.coin(85) ? 1 : 0));
             HP hp{&inf, &g.cells};
             bool diff = rng.coin(2);
             Raster<int> areas2 = diff ? gen_areas(rng, g, false) : areas;
@@ -436,17 +520,22 @@ static void emit_quarantine(verif::Case& c, const Grid& g, bool neg) {
             out << "metric.q.act " << run << " " << step << " " << (diff ? "diff " : "same ") << data(inf);
             if (diff) out << " " << data(areas2);
             out << " => ";
+            bool on_negative = false;                           // an infected listed cell with a negative id
+            for (auto& cell : g.cells) if (inf(cell[0], cell[1]) != 0 && areas2(cell[0], cell[1]) < 0) on_negative = true;
+            if (on_negative) stats.add("q_infected_cell_on_negative_id");
+            else if (negids && !diff) stats.add("q_negative_ids_at_uninfected_cells_only");
             std::string e = verif::err_kind([&] { runs[(size_t)run].action(hp, areas2, step); });
-            if (!e.empty()) { out << e << "\n"; stats.add("q_act_rejected"); continue; }
+            if (!e.empty()) { out << e << "\n"; stats.add("q_act_rejected"); if (on_negative) stats.add("q_on_negative_id_threw"); continue; }
             const QE& q = runs[(size_t)run];
             print_report(out, q, step);
+            if (on_negative) stats.add(q.escaped(step) ? "q_on_negative_id_escape_reported" : "q_on_negative_id_no_escape_reported");
             if (q.escaped(step)) stats.add("q_escaped");
             else if (q.direction(step) == Direction::None) stats.add("q_no_infected_cell");
             else {
                 stats.add("q_contained"); if (g.rows * g.cols > 1) c.nontrivial = true;
                 stats.add(std::string("q_dir_") + quarantine_enum_to_string(q.direction(step)));
                 Survey sv;
-                if (!diff && !negids) sv = survey_nearest(g, areas, inf, dirs);
+                if (!diff) sv = survey_nearest(g, areas, inf, dirs);   // not ok when an infected cell has an id <= 0
                 if (sv.ok) {                                    // in the domain of the nearest-cell statement
                     stats.add(g.int_res ? "q_contained_integer_res" : "q_contained_noninteger_res");
                     if (sv.cells > 1) stats.add("q_contained_several_infected_cells");
